@@ -359,6 +359,23 @@ def dup_sweep_cases(tier):
                        'attempts': [], 'dup': {'k': k, 'extra': extra}, 'schedule': {'prefix': [], 'seed': k, 'rate': 0.0}}
 
 
+def history_sweep_cases(tier):
+    """(a) one object, a clean session first, then a session that fails after the k-th packet - plain and through SyncCrazyflie;
+    (b) a link that needs resending where exactly the j-th reply of the handshake takes longer than the retry period (it is then
+    asked for again and answered twice), for every j and several memory sets"""
+    step = 2 if tier == 'quick' else 1
+    for sync in (True, False):
+        for rep in ('driver-quiet', 'sender'):
+            for k in range(0, 44, step):
+                yield {'nlog': 2, 'nparam': 3, 'mems': [1], 'version': 10, 'needs_resending': False, 'delays': [0.001],
+                       'attempts': [{'fault': None, 'close_at': 0.5, 'sync': sync}, {'fault': {'k': k, 'reporter': rep}, 'close_at': None, 'sync': sync}],
+                       'schedule': {'prefix': [], 'seed': k, 'rate': 0.0}}
+    for mems in ([0], [], [0, 0x30], [1, 0]):
+        for j in range(0, 60, step):
+            yield {'nlog': 2, 'nparam': 3, 'mems': mems, 'version': 10, 'needs_resending': True, 'delays': [0.001] * j + [0.21] + [0.001] * (90 - j),
+                   'attempts': [{'fault': None, 'close_at': 3.0, 'sync': j % 2 == 0}], 'schedule': {'prefix': [], 'seed': j, 'rate': 0.0}}
+
+
 def close_fault_cases(tier):
     """the link fails at the very packet close_link() sends (the zero setpoint), reported from inside that send: the error is then
     processed by a thread of its own while close_link() carries on - at every phase of the session, under several schedules"""
@@ -387,5 +404,6 @@ def subchecks(tier):
         Sub('fault-sweep', run_life, cases=sweep_cases, distinct_by_construction=True),
         Sub('duplicate-sweep', run_life, cases=dup_sweep_cases, distinct_by_construction=True),
         Sub('close-fault-sweep', run_life, cases=close_fault_cases, distinct_by_construction=True),
+        Sub('history-sweep', run_life, cases=history_sweep_cases, distinct_by_construction=True),
         Sub('single-preemptions', run_life, cases=single_preemption_cases, distinct_by_construction=True),
     ]
